@@ -90,11 +90,35 @@ func c03(r *rep.Run) {
 		o.Undef = 1 // every variable resolved by name (undefined-variable mode)
 		opts = append(opts, o)
 	}
+	// programs that call a pure registered operator are also compiled with that
+	// operator DECLARED stateless: the declaration licenses compile-time folding
+	// over constants (visible in Dump), not skipping or merging calls at run time
+	var optsDeclared []drive.Opt
+	for _, o := range optMatrix(0) {
+		o.Stateless = true
+		optsDeclared = append(optsDeclared, o)
+	}
+	callsPure := func(p *Prog) bool {
+		found := false
+		p.T.Walk(func(n *term.Term) {
+			if n.K == term.KOp {
+				switch n.Name {
+				case "p", "q", "g", "h", "d", "cat":
+					found = true
+				}
+			}
+		})
+		return found
+	}
 	done := r.ParallelFor(len(progs), func(w, i int) {
 		p := progs[i]
 		h := hs[w]
 		r.Note(w, p.Src)
-		cs := compileAll(r, h, p, opts)
+		popts := opts
+		if callsPure(p) {
+			popts = append(append([]drive.Opt{}, opts...), optsDeclared...)
+		}
+		cs := compileAll(r, h, p, popts)
 		trees := make([]*term.Term, len(cs))
 		effects := make([]int, len(cs))
 		for k := range cs {
